@@ -43,13 +43,14 @@ func c07Pool() []lval {
 	for _, w := range falsyWords {
 		p = append(p, strVal(w))
 		if w != "" {
-			p = append(p, strVal(strings.ToUpper(w)), strVal(" "+w+" "), strVal(strings.ToUpper(w[:1])+w[1:]), strVal(w+" "), strVal("\t"+w))
+			p = append(p, strVal(strings.ToUpper(w)), strVal(" "+w+" "), strVal(strings.ToUpper(w[:1])+w[1:]), strVal(w+" "), strVal("\t"+w),
+				strVal("        "+w+"        "), strVal(" \t  "+strings.ToUpper(w)+"\t\t   \t"), strVal(w+"                    "))
 		}
 	}
 	for _, w := range []string{"nope", "00", "offf", "nul", "fails", "disable", "yes", "on", "true", "1", "-1", "a", " a ", "0.5", "enabled", "n", "f", "o ff", "fal se", "ok", "0 0", "-0", "null0"} {
 		p = append(p, strVal(w))
 	}
-	p = append(p, strVal(" "), strVal("   "))
+	p = append(p, strVal(" "), strVal("   "), strVal("               "), strVal(" \t \t \t \t \t \t "))
 	for _, n := range []string{"0", "1", "-1", "2", "0.5", "10"} {
 		p = append(p, lval{Src: n, Kind: "num", S: n})
 	}
